@@ -12,6 +12,7 @@ Section PushProofs.
   Notation push := (push keq).
   Notation drive := (drive keq).
   Notation spec := (spec keq).
+  Notation streaming := (@streaming R K).
 
   Lemma concat_keep : forall (c : list R), concat (keep c) = c.
   Proof. intros [|x c]; cbn; [reflexivity|]. rewrite app_nil_r. reflexivity. Qed.
@@ -108,9 +109,6 @@ Section PushProofs.
   Qed.
 
   (** *** chains of two operators whose first operator streams (never stops, nothing to finalize) *)
-  Definition streaming (k : opk) : bool :=
-    match k with OFilter _ | ODistinct _ | OProject _ => true | _ => false end.
-
   Fixpoint outs1 (k : opk) (s : opst) (cs : list (list R)) : list (list R) :=
     match cs with
     | [] => []
